@@ -4,6 +4,7 @@
 //! For a Rust value x the harness reports the real encoding (`try_serialize_record` / rmp-serde),
 //! the serde call tree of x (module `rec`), and what the real decoders make of the bytes.
 mod rec;
+mod trace;
 
 use ant_evm::{PaymentQuote, ProofOfPayment, QuotingMetrics, RewardsAddress};
 use ant_protocol::error::Error as ProtocolError;
@@ -324,7 +325,11 @@ fn typed<T: Serialize + DeserializeOwned>(record: &Record) -> Value {
 
 fn op_decode(case: &Value) -> Value {
     let bytes = hexv(&case["bytes"]);
-    let record = record_of(bytes);
+    let mut record = record_of(bytes);
+    if let Some(k) = case.get("key") {
+        // record keys are arbitrary byte strings chosen by the remote peer
+        record.key = RecordKey::new(&hexv(k));
+    }
     let header = RecordHeader::from_record(&record).ok().map(|h| h.kind);
     let is_chunk = RecordHeader::is_record_of_type_chunk(&record).ok();
     // the typed layer: as the kind the header announces, or as the kind the case asks for
@@ -632,6 +637,8 @@ fn run(case: &Value) -> Value {
 
 fn main() {
     std::panic::set_hook(Box::new(|_| {}));
+    // all decoder / handler runs happen under an active TRACE-level subscriber (see trace.rs)
+    trace::install();
     let stdin = std::io::stdin();
     let out = std::io::stdout();
     let mut out = out.lock();
